@@ -110,7 +110,7 @@ def main():
     if only:
         seeds = [s for s in seeds if any(s.startswith(o) for o in only)]
     os.makedirs(SW, exist_ok=True)
-    workers = 4 if suite else 10
+    workers = 5 if suite else 10
     with cf.ThreadPoolExecutor(workers) as ex:
         for r in ex.map(lambda s: evaluate(s, suite), seeds):
             prop = r["seed"].split("_")[0]
